@@ -9,9 +9,17 @@ namespace Sf
 
 /-! ## invariant -/
 
+/-- the PEAK table, if the handle carries one (WAV float / double data written in SFM_WRITE mode and opened SFM_RDWR):
+    one entry per channel, and the chunk sits in front of the data (so the header length counts it) -/
+def PeakOk (h : H) : Prop := ∀ ps, h.peak = some ps → ps.length = h.ch ∧ h.peakAtStart = true
+
+/-- what may follow the audio data in the store: nothing, or — in a WAV only — one zero byte: the RIFF pad byte behind an
+    odd-length data chunk -/
+def TailOk (h : H) (t : Nat) : Prop := t = 0 ∨ (t = 1 ∧ h.container = .wav)
+
 /-- A read/write handle between two API calls, seen through natural numbers: read position `R`, write position `W`,
-    frame count `F`; the store is `hdr ++ D` with `hdr` the header region and `D` exactly `F` frames of audio
-    (nothing after it).  `s.pos` is where the last operation left the descriptor. -/
+    frame count `F`; the store is `hdr ++ D ++ zeros t` with `hdr` the header region, `D` exactly `F` frames of audio
+    and `t ≤ 1` zero bytes behind it (`TailOk`).  `s.pos` is where the last operation left the descriptor. -/
 structure RwView (h : H) (s : Store) (R W F : Nat) (hdr D : List Byte) : Prop where
   mode : h.mode = .rw
   ch_pos : 0 < h.ch
@@ -20,9 +28,9 @@ structure RwView (h : H) (s : Store) (R W F : Nat) (hdr D : List Byte) : Prop wh
   wpos : h.wpos = W
   frames : h.frames = F
   doff : h.dataoffset = (hdrLenOf h : Nat)
-  peak : h.peak = none
-  dataend : h.dataend = 0
-  bytes : s.bytes = hdr ++ D
+  peak : PeakOk h
+  dataend : h.container ≠ .wav → h.dataend = 0
+  bytes : ∃ t, s.bytes = hdr ++ (D ++ zeros t) ∧ TailOk h t
   hlen : hdr.length = hdrLenOf h
   dlen : D.length = F * h.bw
   posGe : hdrLenOf h ≤ s.pos
@@ -30,8 +38,9 @@ structure RwView (h : H) (s : Store) (R W F : Nat) (hdr D : List Byte) : Prop wh
   syncR : h.lastOp = .r → R < F → s.pos = hdrLenOf h + R * h.bw
 
 /-- the invariant: positions and frame count are non-negative, the data offset is the header length the container
-    writes, no PEAK table, `dataend = 0`, the store holds the header region followed by exactly `frames` whole
-    frames, and the descriptor position agrees with the pointer of the last operation -/
+    writes, a PEAK table (if any) of one entry per channel in front of the data, `dataend = 0` (RAW, AU), the store holds the header region followed by exactly `frames`
+    whole frames and at most the zero pad byte (WAV), and the descriptor position agrees with the pointer of the
+    last operation -/
 def RwInv (h : H) (s : Store) : Prop := ∃ R W F hdr D, RwView h s R W F hdr D
 
 theorem RwView.bw_pos {h : H} {s : Store} {R W F : Nat} {hdr D : List Byte} (v : RwView h s R W F hdr D) : 0 < h.bw :=
@@ -46,14 +55,19 @@ theorem RwInv.toHInv {h : H} {s : Store} (i : RwInv h s) : HInv h s := by
 /-- in plain terms -/
 theorem RwInv.gives {h : H} {s : Store} (i : RwInv h s) :
     h.mode = .rw ∧ 0 < h.ch ∧ 0 < h.enc.nbytes ∧ 0 ≤ h.rpos ∧ 0 ≤ h.wpos ∧ 0 ≤ h.frames ∧
-    h.dataoffset = (hdrLenOf h : Nat) ∧ h.peak = none ∧ h.dataend = 0 ∧
-    (s.bytes.length : Int) = h.dataoffset + h.frames * (h.bw : Int) ∧ h.dataoffset ≤ (s.pos : Int) ∧
+    h.dataoffset = (hdrLenOf h : Nat) ∧ PeakOk h ∧ (h.container ≠ .wav → h.dataend = 0) ∧
+    (∃ t : Nat, (s.bytes.length : Int) = h.dataoffset + h.frames * (h.bw : Int) + t ∧ (t = 0 ∨ (t = 1 ∧ h.container = .wav)) ∧
+      s.bytes.drop (s.bytes.length - t) = zeros t) ∧
+    h.dataoffset ≤ (s.pos : Int) ∧
     (h.lastOp = .w → (s.pos : Int) = h.dataoffset + h.wpos * (h.bw : Int)) ∧
     (h.lastOp = .r → h.rpos < h.frames → (s.pos : Int) = h.dataoffset + h.rpos * (h.bw : Int)) := by
   obtain ⟨R, W, F, hdr, D, v⟩ := i
   refine ⟨v.mode, v.ch_pos, v.nb_pos, by rw [v.rpos]; omega, by rw [v.wpos]; omega, by rw [v.frames]; omega,
     v.doff, v.peak, v.dataend, ?_, ?_, ?_, ?_⟩
-  · rw [v.bytes, List.length_append, v.hlen, v.dlen, v.doff, v.frames]; push_cast; rfl
+  · obtain ⟨t, hb, ht⟩ := v.bytes
+    refine ⟨t, ?_, ht, ?_⟩
+    · rw [hb, List.length_append, List.length_append, zeros_length, v.hlen, v.dlen, v.doff, v.frames]; push_cast; omega
+    · rw [hb, ← List.append_assoc, List.length_append, zeros_length, Nat.add_sub_cancel, List.drop_left' rfl]
   · rw [v.doff]; exact Int.ofNat_le.mpr v.posGe
   · intro hl; rw [v.syncW hl, v.doff, v.wpos]; push_cast; rfl
   · intro hl hlt
@@ -73,8 +87,9 @@ def absOf (h : H) (s : Store) : AbsFile (List Byte) :=
 theorem RwView.dataRegion {h : H} {s : Store} {R W F : Nat} {hdr D : List Byte} (v : RwView h s R W F hdr D) :
     dataRegion h s = D := by
   unfold Sf.dataRegion
-  rw [v.bytes, v.doff, v.frames, Int.toNat_natCast, Int.toNat_natCast, ← v.hlen, List.drop_left' rfl, ← v.dlen,
-    List.take_length]
+  obtain ⟨t, hb, _⟩ := v.bytes
+  rw [hb, v.doff, v.frames, Int.toNat_natCast, Int.toNat_natCast, ← v.hlen, List.drop_left' rfl, ← v.dlen,
+    List.take_left' rfl]
 
 theorem RwView.abs {h : H} {s : Store} {R W F : Nat} {hdr D : List Byte} (v : RwView h s R W F hdr D) :
     absOf h s = { frames := groups h.bw D, rpos := R, wpos := W } := by
@@ -119,30 +134,40 @@ theorem writeHeader_shape (h : H) (s : Store) (cl : Bool) (hdr D : List Byte) (h
   cases hc : h.container <;> cases cl <;> simp only [hc] at hd ⊢ <;> (try simp_all) <;>
     (ext <;> simp_all)
 
+/-- the part of the store behind the header region: the data and the tail -/
+theorem RwView.body {h : H} {s : Store} {R W F : Nat} {hdr D : List Byte} (v : RwView h s R W F hdr D) :
+    s.bytes = hdr ++ s.bytes.drop hdr.length := by
+  obtain ⟨t, hb, _⟩ := v.bytes
+  rw [hb, List.drop_left' rfl]
+
 theorem RwView.writeHeader {h : H} {s : Store} {R W F : Nat} {hdr D : List Byte} (v : RwView h s R W F hdr D)
     (cl : Bool) :
-    ∃ fl dl hdr', Sf.writeHeader h s cl = ({ h with filelength := fl, datalength := dl }, { bytes := hdr' ++ D, pos := s.pos }) ∧
+    ∃ fl dl hdr', Sf.writeHeader h s cl =
+        ({ h with filelength := fl, datalength := dl }, { bytes := hdr' ++ s.bytes.drop hdr.length, pos := s.pos }) ∧
       hdr'.length = hdrLenOf h :=
-  writeHeader_shape h s cl hdr D v.bytes v.hlen v.doff v.posGe
+  writeHeader_shape h s cl hdr _ v.body v.hlen v.doff v.posGe
 
-/-- the view survives any change of the handle fields it does not read and any store with the same data section,
-    header length and position -/
+/-- the view survives any change of the handle fields it does not read and any store with the same data section and
+    tail, header length and position -/
 theorem RwView.upd_lengths {h : H} {s : Store} {R W F : Nat} {hdr D : List Byte} (v : RwView h s R W F hdr D)
     (fl dl : Int) (hdr' : List Byte) (hl : hdr'.length = hdrLenOf h) :
-    RwView { h with filelength := fl, datalength := dl } { bytes := hdr' ++ D, pos := s.pos } R W F hdr' D := by
+    RwView { h with filelength := fl, datalength := dl } { bytes := hdr' ++ s.bytes.drop hdr.length, pos := s.pos }
+      R W F hdr' D := by
   have e := hdrLenOf_upd h fl dl
-  exact ⟨v.mode, v.ch_pos, v.nb_pos, v.rpos, v.wpos, v.frames, by rw [e]; exact v.doff, v.peak, v.dataend, rfl,
+  obtain ⟨t, hb, ht⟩ := v.bytes
+  exact ⟨v.mode, v.ch_pos, v.nb_pos, v.rpos, v.wpos, v.frames, by rw [e]; exact v.doff, v.peak, v.dataend,
+    ⟨t, by rw [hb, List.drop_left' rfl], ht⟩,
     by rw [e]; exact hl, v.dlen, by rw [e]; exact v.posGe, by rw [e]; exact v.syncW, by rw [e]; exact v.syncR⟩
 
 /-- a (conditional) header rewrite keeps the view, with a new header region -/
 theorem RwView.condHeader {h : H} {s : Store} {R W F : Nat} {hdr D : List Byte} (v : RwView h s R W F hdr D)
     (c : Prop) [Decidable c] (cl : Bool) :
     ∃ fl dl hdr', (if c then Sf.writeHeader h s cl else (h, s)) =
-        ({ h with filelength := fl, datalength := dl }, { bytes := hdr' ++ D, pos := s.pos }) ∧
+        ({ h with filelength := fl, datalength := dl }, { bytes := hdr' ++ s.bytes.drop hdr.length, pos := s.pos }) ∧
       hdr'.length = hdrLenOf h := by
   by_cases hc : c
   · rw [if_pos hc]; exact v.writeHeader cl
   · rw [if_neg hc]
-    exact ⟨h.filelength, h.datalength, hdr, by rw [← v.bytes], v.hlen⟩
+    exact ⟨h.filelength, h.datalength, hdr, by rw [← v.body], v.hlen⟩
 
 end Sf
